@@ -116,6 +116,12 @@ def build(structure, c1, c2, c3):
         inner = scf.ForOp(idx[0].results[0], idx[1].results[0], idx[2].results[0], [], Block([w2, scf.YieldOp()]))
         loop = scf.ForOp(idx[0].results[0], idx[1].results[0], idx[2].results[0], [], Block([w1, inner, scf.YieldOp()]))
         body = allocs + idx + [loop, w3]
+    elif structure == "sibling_loops_in_loop":
+        # for { for { w1 }; for { w2 } }; w3      (a tile loop whose body holds only inner loops)
+        in1 = scf.ForOp(idx[0].results[0], idx[1].results[0], idx[2].results[0], [], Block([w1, scf.YieldOp()]))
+        in2 = scf.ForOp(idx[0].results[0], idx[1].results[0], idx[2].results[0], [], Block([w2, scf.YieldOp()]))
+        loop = scf.ForOp(idx[0].results[0], idx[1].results[0], idx[2].results[0], [], Block([in1, in2, scf.YieldOp()]))
+        body = allocs + idx + [loop, w3]
     elif structure == "two_regions_in_loop":
         # for { region-op { w1 }; region-op { w2 } }; w3
         r1 = PlainOp([], 0, [Region([Block([w1])])])
@@ -176,7 +182,7 @@ def conflict_rev(ea, eb):
     return any(x in wb for x in ra) or any(x in rb or x in wb for x in wa)
 
 
-STRUCTS = ("flat", "loop3", "loop_then", "then_loop", "nested_in_loop", "loop_in_loop_a", "loop_in_loop_b", "two_regions_in_loop", "region_flat", "if_else", "if_else_then")
+STRUCTS = ("flat", "loop3", "loop_then", "then_loop", "nested_in_loop", "loop_in_loop_a", "loop_in_loop_b", "two_regions_in_loop", "region_flat", "if_else", "if_else_then", "sibling_loops_in_loop")
 
 
 @contract
